@@ -19,7 +19,9 @@ import (
 	"io"
 	"net"
 	"net/http"
+	"os"
 	"runtime"
+	"strconv"
 	"strings"
 	"sync"
 	"sync/atomic"
@@ -164,6 +166,7 @@ type c22Scenario struct {
 	Ops       []c22Op  `json:"ops"`
 	Relayed   []string `json:"relayed_tags,omitempty"`
 	ReplyAt   []string `json:"replies_received_at,omitempty"`
+	Peer      string   `json:"control_peer,omitempty"`
 	FirstFrom string   `json:"first_sender"`
 	SamePort  bool     `json:"strangers_use_owner_port_number"`
 }
@@ -172,15 +175,69 @@ type c22Server struct {
 	srv  *socks5.Server
 	h    *c22Handler
 	d    *c22Dialer
-	addr  string // host:port to connect to
+	addr  string // host:port to connect to (IPv4)
+	addr6 string // host:port to connect to over IPv6 (dual-stack server only)
 	udpIP net.IP // where the relay sockets of this server are reachable
 	ws    string
+	stub  *c22Stub // harness-run accept loop that can give the next connection another peer address
+	stop  func()
+}
+
+// c22Stub runs socks5.Handler.Handle on connections accepted by the harness, the way
+// Server.handleConn does, and lets a case decide what RemoteAddr() the handler will see for
+// its control connection (an IPv6 peer without needing IPv6 on the host).
+type c22Stub struct {
+	mu   sync.Mutex
+	next net.Addr
+}
+
+type c22PeerConn struct {
+	net.Conn
+	remote net.Addr
+}
+
+func (c c22PeerConn) RemoteAddr() net.Addr { return c.remote }
+
+func c22StartStub() (*c22Server, error) {
+	h := &c22Handler{}
+	d := &c22Dialer{}
+	hd := socks5.NewHandler(nil, d)
+	hd.SetUDPHandler(h)
+	hd.SetUDPBindIP(net.IPv4(127, 0, 0, 1))
+	hd.SetICMPHandler(&c22ICMP{})
+	ln, err := net.Listen("tcp4", "127.0.0.1:0")
+	if err != nil {
+		return nil, err
+	}
+	stub := &c22Stub{}
+	go func() {
+		for {
+			c, err := ln.Accept()
+			if err != nil {
+				return
+			}
+			stub.mu.Lock()
+			peer := stub.next
+			stub.next = nil
+			stub.mu.Unlock()
+			var conn net.Conn = c
+			if peer != nil {
+				conn = c22PeerConn{Conn: c, remote: peer}
+			}
+			go func() {
+				defer conn.Close()
+				conn.SetDeadline(time.Now().Add(5 * time.Minute))
+				hd.Handle(conn)
+			}()
+		}
+	}()
+	return &c22Server{h: h, d: d, addr: ln.Addr().String(), udpIP: net.IPv4(127, 0, 0, 1), stub: stub, stop: func() { ln.Close() }}, nil
 }
 
 func c22StartServer(listen, connectIP string) (*c22Server, error) {
 	h := &c22Handler{}
 	cfg := socks5.DefaultServerConfig()
-	cfg.Address = listen + ":0"
+	cfg.Address = net.JoinHostPort(listen, "0")
 	d := &c22Dialer{}
 	cfg.Dialer = d
 	srv := socks5.NewServer(cfg)
@@ -196,7 +253,53 @@ func c22StartServer(listen, connectIP string) (*c22Server, error) {
 		return nil, err
 	}
 	s.ws = srv.WebSocketAddress()
+	s.stop = func() { srv.Stop() }
+	if strings.Contains(listen, ":") {
+		s.addr6 = net.JoinHostPort("::1", port)
+	}
 	return s, nil
+}
+
+// c22Drain makes sure the relay socket has consumed everything sent to it so far, for
+// associations in which no sender is relayed (so no marker can come back): it queues one more
+// (malformed) datagram and polls the kernel's receive-queue counter of the relay port in
+// /proc/net/udp until it is empty. ReadLoop is a single goroutine, so once the extra datagram
+// has been taken off the queue every earlier one has been fully processed. Nothing is concluded
+// from a timeout (the caller just goes on; violations are positive observations).
+func c22Drain(from *net.UDPConn, relay *net.UDPAddr) bool {
+	from.WriteToUDP([]byte{0, 0}, relay)
+	want := fmt.Sprintf(":%04X", relay.Port)
+	deadline := time.Now().Add(300 * time.Millisecond)
+	for time.Now().Before(deadline) {
+		b, err := os.ReadFile("/proc/net/udp")
+		if err != nil {
+			time.Sleep(20 * time.Millisecond)
+			return false
+		}
+		found, empty := false, false
+		for _, l := range strings.Split(string(b), "\n") {
+			f := strings.Fields(l)
+			if len(f) < 5 || !strings.HasSuffix(f[1], want) {
+				continue
+			}
+			found = true
+			q := strings.Split(f[4], ":")
+			if len(q) == 2 {
+				if v, err := strconv.ParseUint(q[1], 16, 64); err == nil && v == 0 {
+					empty = true
+				}
+			}
+		}
+		if !found {
+			time.Sleep(20 * time.Millisecond)
+			return false
+		}
+		if empty {
+			return true
+		}
+		time.Sleep(100 * time.Microsecond)
+	}
+	return false
 }
 
 // c22Control is the control channel of one association (TCP or WebSocket).
@@ -382,7 +485,7 @@ func c22Datagram(payload string) []byte {
 	return append([]byte{0, 0, 0, 1, 10, 9, 8, 7, 0, 53}, payload...)
 }
 
-func c22RunCase(r *verifkit.R, phase string, ci int, rng *verifkit.Rand, servers []*c22Server, skipOther *int, seqOnly bool) {
+func c22RunCase(r *verifkit.R, phase string, ci int, rng *verifkit.Rand, servers []*c22Server, skipOther *int, seqOnly bool, peer string) {
 	if c22SyncFailures.Load() >= 8 {
 		r.Add("cases_skipped_after_sync_failures", 1)
 		return
@@ -411,6 +514,25 @@ func c22RunCase(r *verifkit.R, phase string, ci int, rng *verifkit.Rand, servers
 	if sc.Declared == "other" && *skipOther >= 3 {
 		sc.Declared = "owner"
 	}
+	// peer: what the server sees as the peer of the control connection. "" = the owner's IPv4
+	// address (or its v4-mapped form on a dual-stack listener); "tcp6" = a real IPv6 connection
+	// from ::1; any other value = that address, presented through the stub accept loop.
+	var peerIP net.IP
+	if peer != "" {
+		sc.Control = "tcp"
+		sc.Peer = peer
+		if sc.Declared == "other" {
+			sc.Declared = "none"
+		}
+		if peer == "tcp6" {
+			peerIP = net.IPv6loopback
+		} else if peer == "v4-mapped" {
+			peerIP = net.ParseIP(sc.OwnerIP).To16()
+		} else {
+			peerIP = net.ParseIP(peer)
+		}
+	}
+	v6peer := peerIP != nil && peerIP.To4() == nil
 	inconclusive := func(msg string) {
 		r.Inconclusive(fmt.Sprintf("%s:%d %s", phase, ci, msg))
 	}
@@ -498,7 +620,16 @@ func c22RunCase(r *verifkit.R, phase string, ci int, rng *verifkit.Rand, servers
 	var ctl c22Control
 	if sc.Control == "tcp" {
 		d := net.Dialer{LocalAddr: &net.TCPAddr{IP: net.ParseIP(sc.OwnerIP)}, Timeout: c22Watchdog}
-		c, err := d.Dial("tcp", sv.addr)
+		network, target := "tcp", sv.addr
+		if peer == "tcp6" {
+			d.LocalAddr = nil
+			network, target = "tcp6", sv.addr6
+		} else if peer != "" {
+			sv.stub.mu.Lock()
+			sv.stub.next = &net.TCPAddr{IP: peerIP, Port: 40000}
+			sv.stub.mu.Unlock()
+		}
+		c, err := d.Dial(network, target)
 		if err != nil {
 			inconclusive("control dial: " + err.Error())
 			return
@@ -525,20 +656,27 @@ func c22RunCase(r *verifkit.R, phase string, ci int, rng *verifkit.Rand, servers
 		inconclusive("control write: " + err.Error())
 		return
 	}
-	rep := make([]byte, 12)
+	rep := make([]byte, 6)
 	if _, err := io.ReadFull(ctl, rep); err != nil {
 		inconclusive("control read: " + err.Error())
 		return
 	}
-	if rep[0] != 5 || rep[1] != 0 || rep[2] != 5 || rep[3] != 0 || rep[5] != 1 {
+	if rep[0] != 5 || rep[1] != 0 || rep[2] != 5 || rep[3] != 0 || (rep[5] != 1 && rep[5] != 4) {
 		inconclusive(fmt.Sprintf("UDP ASSOCIATE not granted: % x", rep))
 		return
 	}
-	relayIP := net.IP(rep[6:10])
-	if sc.Control == "ws" {
-		relayIP = sv.udpIP // a WebSocket control channel has no local address to report
+	bnd := make([]byte, map[byte]int{1: 4, 4: 16}[rep[5]]+2)
+	if _, err := io.ReadFull(ctl, bnd); err != nil {
+		inconclusive("control read: " + err.Error())
+		return
 	}
-	relay := &net.UDPAddr{IP: relayIP, Port: int(rep[10])<<8 | int(rep[11])}
+	relayIP := net.IP(bnd[:len(bnd)-2])
+	if sc.Control == "ws" || relayIP.To4() == nil {
+		// a WebSocket control channel has no local address to report, and an IPv6 control
+		// connection is told its IPv6 address although the relay socket is udp4
+		relayIP = sv.udpIP
+	}
+	relay := &net.UDPAddr{IP: relayIP, Port: int(bnd[len(bnd)-2])<<8 | int(bnd[len(bnd)-1])}
 	if !st.waitFor(c22Watchdog, func() bool { return st.assoc != nil }) {
 		inconclusive("handler never got the association")
 		return
@@ -548,7 +686,8 @@ func c22RunCase(r *verifkit.R, phase string, ci int, rng *verifkit.Rand, servers
 	r.Add("class_declared_"+sc.Declared, 1)
 
 	allowed := map[string]bool{sc.OwnerIP: true}
-	if sc.Control == "ws" {
+	if sc.Control == "ws" || v6peer {
+		// the owner has no IPv4 identity the relay could know, unless it announces one
 		allowed = map[string]bool{}
 	}
 	if declaredIP != nil {
@@ -561,6 +700,14 @@ func c22RunCase(r *verifkit.R, phase string, ci int, rng *verifkit.Rand, servers
 	class := "declared-" + sc.Declared
 	if sc.Control == "ws" {
 		class = "ws-declared-owner"
+	}
+	if v6peer {
+		class = "v6peer-declared-" + sc.Declared
+		r.Add("v6peer_associations", 1)
+		r.Add("v6peer_"+sc.Declared, 1)
+	}
+	if peer != "" {
+		r.Add("peer_"+map[bool]string{true: "tcp6-real", false: "stub"}[peer == "tcp6"], 1)
 	}
 	violations := 0
 	bad := func(key, msg string) { violations++; r.Violation(class+":"+key, phase, ci, msg, sc) }
@@ -583,6 +730,16 @@ func c22RunCase(r *verifkit.R, phase string, ci int, rng *verifkit.Rand, servers
 	}
 	synced := true
 	doSync := func() bool {
+		if len(allowed) == 0 {
+			// nobody's datagrams may be relayed: no marker can come back
+			sc.Ops = append(sc.Ops, c22Op{Op: "drain"})
+			if c22Drain(sentinel, relay) {
+				r.Add("drains_ok", 1)
+			} else {
+				r.Add("drains_timed_out", 1)
+			}
+			return true
+		}
 		tag := send(syncFrom, "sync")
 		sc.Ops = append(sc.Ops, c22Op{Op: "sync", From: syncFrom, Seq: seq})
 		wd := c22Watchdog
@@ -818,6 +975,9 @@ func c22RunCase(r *verifkit.R, phase string, ci int, rng *verifkit.Rand, servers
 	for _, n := range []string{"A", "B"} {
 		if !allowed[ipOf[n]] && sent[n] > 0 && relayedFrom[n] == 0 && synced {
 			r.Add("stranger_datagrams_dropped", sent[n])
+			if v6peer {
+				r.Add("v6peer_stranger_datagrams_dropped", sent[n])
+			}
 		}
 	}
 	if syncFailed && violations == 0 {
@@ -829,7 +989,7 @@ func c22RunCase(r *verifkit.R, phase string, ci int, rng *verifkit.Rand, servers
 		inconclusive("association not closed after the control connection ended")
 	}
 	strangerActive := sent["A"] > 0 || sent["B"] > 0
-	r.Eval(fmt.Sprintf("%s|%s|%s|%v", sc.Control, sc.Declared, sc.DeclForm, sc.Ops), synced && strangerActive && relayedFrom[syncFrom] > 0)
+	r.Eval(fmt.Sprintf("%s|%s|%s|%v", sc.Control, sc.Declared, sc.DeclForm, sc.Ops), synced && strangerActive && (relayedFrom[syncFrom] > 0 || len(allowed) == 0))
 	if r.NeedSample() && synced && strangerActive {
 		r.Sample(sc)
 	}
@@ -857,9 +1017,31 @@ func TestVerif_C22(t *testing.T) {
 			r.Inconclusive("cannot start socks5.Server on " + l[0] + ": " + err.Error())
 			return
 		}
-		defer s.srv.Stop()
+		defer s.stop()
 		servers = append(servers, s)
 	}
+	// a dual-stack listener: IPv4 clients show up as v4-mapped IPv6 peers, ::1 clients as IPv6
+	var dual *c22Server
+	if s, err := c22StartServer("::", "127.0.0.1"); err == nil {
+		if c, err := net.DialTimeout("tcp6", s.addr6, c22Watchdog); err == nil {
+			c.Close()
+			dual = s
+			defer s.stop()
+			servers = append(servers, s)
+			r.Set("ipv6_loopback", true)
+		} else {
+			s.stop()
+		}
+	}
+	if dual == nil {
+		r.Set("ipv6_loopback", false)
+	}
+	stub, err := c22StartStub()
+	if err != nil {
+		r.Inconclusive("cannot start the stub accept loop: " + err.Error())
+		return
+	}
+	defer stub.stop()
 	skipOther := 0
 	// phase 1: one scheduler thread and strictly sequential unrelated requests, so that anything
 	// the server recycles between requests (pooled buffers, per-P caches) is reused at once
@@ -867,13 +1049,31 @@ func TestVerif_C22(t *testing.T) {
 		prev := runtime.GOMAXPROCS(1)
 		defer runtime.GOMAXPROCS(prev)
 		r.Cases("assoc1p", r.N(300, 3000), func(i int, rng *verifkit.Rand) {
-			c22RunCase(r, "assoc1p", i, rng, servers, &skipOther, true)
+			c22RunCase(r, "assoc1p", i, rng, servers, &skipOther, true, "")
 		})
 	}()
 	// phase 2: all threads; unrelated requests sequential, concurrent and in the background
 	r.Cases("assoc", r.N(700, 12000), func(i int, rng *verifkit.Rand) {
-		c22RunCase(r, "assoc", i, rng, servers, &skipOther, false)
+		c22RunCase(r, "assoc", i, rng, servers, &skipOther, false, "")
 	})
+	// phase 3: the address family of the control connection's peer as a dimension
+	peers := []string{"2001:db8::15", "::1", "fe80::1", "v4-mapped", "2001:db8::15", "tcp6"}
+	r.Cases("peerfam", r.N(240, 3000), func(i int, rng *verifkit.Rand) {
+		p := peers[i%len(peers)]
+		if p == "tcp6" {
+			if dual == nil {
+				r.Add("peer_tcp6_unavailable", 1)
+				p = "2001:db8::15"
+			} else {
+				c22RunCase(r, "peerfam", i, rng, []*c22Server{dual}, &skipOther, false, p)
+				return
+			}
+		}
+		c22RunCase(r, "peerfam", i, rng, []*c22Server{stub}, &skipOther, false, p)
+	})
+	r.Require("v6peer_associations", 100)
+	r.Require("v6peer_none", 30)
+	r.Require("v6peer_stranger_datagrams_dropped", 200)
 	r.Require("unrelated_requests", 2000)
 	r.Require("associations", 300)
 	r.Require("first_sender_stranger", 100)
